@@ -112,7 +112,7 @@ class Gen:
         f = self.open[ncid]
         kinds = list(KINDS_ANY)
         if not f['indef'] and not f['rdonly'] and f['nvars']:
-            kinds += ['IPUT', 'IPUT']
+            kinds += ['IPUT'] * 6
         kinds += ['DETACH'] if f['attached'] else ['ATTACH']
         kind = r.choice(kinds)
         a = self.send('%s %d' % (kind, ncid)).split()
@@ -310,7 +310,10 @@ def run_check(tier, seed):
                     # property oracle: an id that is not open -> NC_EBADID, whatever the call
                     if not impl.startswith('-33'):
                         dist['probe:not-EBADID'] = dist.get('probe:not-EBADID', 0) + 1
-                        prop_fail.append(dict(sig='stale-id-null-deref' if impl.startswith('SIG') else 'stale-id-accepted',
+                        # F1's input class: in-range id with an empty slot while some other file is open — exactly where the
+                        # unrepaired model variant predicts the NULL dereference too; anything else gets its own signature
+                        f1 = impl.startswith('SIG') and mod == impl and nullcheck == 0
+                        prop_fail.append(dict(sig='stale-id-null-deref' if f1 else ('stale-id-crash:' if impl.startswith('SIG') else 'stale-id-accepted:') + line.split(' ')[2],
                                               what='API call %s on ncid %s, which is not open, answers %s instead of NC_EBADID (script %s request %d)'
                                               % (line.split(' ')[2], line.split(' ')[1], impl, name, i), script=lines[:i + 1], impl=impl))
                     if impl != mod:
@@ -322,6 +325,10 @@ def run_check(tier, seed):
                                               script=lines, impl=impl))
                     elif scen:
                         log('[S4] note: scenario %s no longer leaks' % scen)
+                elif op == 'CLOSE' and mod == '-236' and impl != mod:
+                    # property oracle: requests were pending (iput posted, no wait) -> the close must say NC_EPENDING
+                    prop_fail.append(dict(sig='close-pending-not-reported', what='ncmpi_close of ncid %s with pending nonblocking requests answers %s instead of NC_EPENDING (script %s request %d)'
+                                          % (line.split(' ')[1], impl, name, i), script=lines[:i + 1], impl=impl))
                 elif impl != mod:
                     tie_diffs.append(dict(script=name, index=i, line=line, impl=impl[:300], model=mod[:300]))
                 if op in ('CLOSE', 'ABORT', 'FILL', 'CREATEX', 'OPENJUNK', 'OPENMISSING', 'CREATEBAD', 'OPENTRUNC') or (impl and impl.split(' ')[0] not in ('0', 'cfg')):
